@@ -109,7 +109,35 @@ fn mutate(buf: &mut Vec<u8>, fields: &[(usize, usize, &'static str)], rng: &mut 
         buf.push(rng.below(256) as u8);
         return "grow".into();
     }
-    match rng.below(10) {
+    match rng.below(11) {
+        10 if fields.len() >= 2 => {
+            // TWO related fields changed together so that what they add up to stays the same (a sizes-table entry
+            // emptied into its neighbour, a length moved between two prefixes...): each value alone is plausible, later
+            // positions do not move, so the image still opens and the odd pair is met later
+            let i = rng.usize_below(fields.len() - 1);
+            let (a_at, a_w, name) = fields[i];
+            // the nearest later field of the same kind and width, else the next one
+            let j = (i + 1..fields.len()).find(|j| fields[*j].2 == name && fields[*j].1 == a_w).unwrap_or(i + 1);
+            let (b_at, b_w, _) = fields[j];
+            let get = |buf: &[u8], at: usize, w: usize| -> u64 {
+                let mut x = [0u8; 8];
+                for k in 0..w.min(8) {
+                    x[k] = buf.get(at + k).copied().unwrap_or(0);
+                }
+                u64::from_le_bytes(x)
+            };
+            let (a, b) = (get(buf, a_at, a_w), get(buf, b_at, b_w));
+            let (na, nb) = match rng.below(5) {
+                0 => (a.wrapping_add(b), 0),
+                1 => (0, a.wrapping_add(b)),
+                2 => (a.wrapping_add(1), b.wrapping_sub(1)),
+                3 => (a.wrapping_sub(1), b.wrapping_add(1)),
+                _ => (b, a),
+            };
+            put(buf, a_at, a_w, na);
+            put(buf, b_at, b_w, nb);
+            format!("pair:{name}")
+        }
         0..=4 if !fields.is_empty() => {
             let (at, w, name) = *rng.pick(fields);
             let val = if rng.chance(1, 4) && !derived.is_empty() { *rng.pick(derived) } else { *rng.pick(INTERESTING) };
@@ -370,7 +398,7 @@ impl Prop for C08 {
         "fault_enumeration"
     }
     fn rule(&self) -> String {
-        "run = a hostile image derived from a seeded valid archive (all layer sets) by k <= 3 structured faults placed at any of the three layers of the stack: (stored) cut, bit flip, byte substitution, integer-field overwrite with boundary values, encrypted-chunk swap/duplicate/delete/splice, garbage tail, raw PRNG bytes; (inner) the decrypted/decompressed file-layer stream or the compressed stream is mutated on its parsed fields (block type/id/length, every index field, size-table fields: values 0,1,len-1,len,len+1,2^31,2^32-1,2^63,2^64-1... and values DERIVED from the position arithmetic of the layers: the largest plaintext position whose position-with-tags fits in 64 bits, +-1, quotients/multiples of CHUNK, CHUNK+16 and BLOCK near 2^64), spans duplicated/deleted/moved, or replaced by a hand-built hostile stream (thousands of index offsets pointing at a foreign block, index offsets at the edge of what the layers' position arithmetic can represent, empty/out-of-range offset lists, degenerate and reused blocks, huge announced lengths, 512 MiB length prefixes, broken length fields, empty size table, last_block_size > BLOCK, huge compressed sizes, block longer than declared, brotli large-window header asking for a 1 GiB ring buffer) and then re-wrapped by the format model's foreign writer through compression and VALID encryption for the reader's key; the first 3000 quick runs enumerate, on s0 without layers, every single bit flip and every cut of one small archive's stored bytes. Then an operation history that continues after errors: open, list, open+read each listed and each original name with seeded buffers, read after errors, hashes, linear extraction (all / subset), repair in both modes, layer-level seeks (also beyond the end) and reads on a stack that already failed, drop. Oracle per operation: returns Ok or Err - no panic (overflow checks on), the worker process survives (stack overflow, abort), at most 200*len+50000 seam calls, peak live heap above the start of the operation <= 48 MiB + 16*len(image); a single request >= 1 GiB aborts the worker and is reported. evaluations = operations judged; distinct_nontrivial = distinct (variant, layers, fault placement, mutation kinds, operation, outcome class) signatures.".into()
+        "run = a hostile image derived from a seeded valid archive (all layer sets) by k <= 3 structured faults placed at any of the three layers of the stack: (stored) cut, bit flip, byte substitution, integer-field overwrite with boundary values, encrypted-chunk swap/duplicate/delete/splice, garbage tail, raw PRNG bytes; (inner) the decrypted/decompressed file-layer stream or the compressed stream is mutated on its parsed fields (block type/id/length, every index field, size-table fields: values 0,1,len-1,len,len+1,2^31,2^32-1,2^63,2^64-1... and PAIRS of related fields changed together so that their sum is kept (an entry of the sizes table emptied into its neighbour, +-1 moved between two neighbours, two values swapped); values DERIVED from the position arithmetic of the layers: the largest plaintext position whose position-with-tags fits in 64 bits, +-1, quotients/multiples of CHUNK, CHUNK+16 and BLOCK near 2^64), spans duplicated/deleted/moved, or replaced by a hand-built hostile stream (thousands of index offsets pointing at a foreign block, index offsets at the edge of what the layers' position arithmetic can represent, empty/out-of-range offset lists, degenerate and reused blocks, huge announced lengths, 512 MiB length prefixes, broken length fields, empty size table, last_block_size > BLOCK, huge compressed sizes, block longer than declared, brotli large-window header asking for a 1 GiB ring buffer) and then re-wrapped by the format model's foreign writer through compression and VALID encryption for the reader's key; the first 3000 quick runs enumerate, on s0 without layers, every single bit flip and every cut of one small archive's stored bytes. Then an operation history that continues after errors: open, list, open+read each listed and each original name with seeded buffers, read after errors, hashes, linear extraction (all / subset), repair in both modes, layer-level seeks (also beyond the end) and reads on a stack that already failed, drop. Oracle per operation: returns Ok or Err - no panic (overflow checks on), the worker process survives (stack overflow, abort), at most 200*len+50000 seam calls, peak live heap above the start of the operation <= 48 MiB + 16*len(image); a single request >= 1 GiB aborts the worker and is reported. evaluations = operations judged; distinct_nontrivial = distinct (variant, layers, fault placement, mutation kinds, operation, outcome class) signatures.".into()
     }
     fn assumptions(&self) -> Vec<String> {
         vec![
